@@ -7,7 +7,9 @@ with it, demo fails with it and passes without it. The worktree is removed after
 import json, os, shutil, subprocess, sys, time
 
 prop, n = sys.argv[1], sys.argv[2]
-src = f'/tmp/seeded-out/{prop}/{n}'
+# optional: source directory and the number to store it under (second-round changes)
+src = sys.argv[3] if len(sys.argv) > 3 else f'/tmp/seeded-out/{prop}/{n}'
+store_n = sys.argv[4] if len(sys.argv) > 4 else n
 wt = f'/tmp/sv-{prop}-{n}'
 PY = '/venv/bin/python'
 
@@ -39,7 +41,7 @@ try:
     print('\n'.join(ran))
     print('CONFIRMED' if good else 'REJECTED')
     if good:
-        dst = f'/verif/seeded/{prop}-{n}'
+        dst = f'/verif/seeded/{prop}-{store_n}'
         os.makedirs(dst, exist_ok=True)
         for f in ('patch.diff', 'demo.py', 'notes.md'):
             if os.path.exists(f'{src}/{f}'):
@@ -47,7 +49,7 @@ try:
         needs = ''
         if os.path.exists(f'{src}/notes.md'):
             needs = open(f'{src}/notes.md').read()[:1500]
-        json.dump({'property': prop, 'id': f'{prop}-{n}', 'base_commit': head,
+        json.dump({'property': prop, 'id': f'{prop}-{store_n}', 'base_commit': head,
                    'source': 'fresh sub-agent given only the property text and its own scratch worktree',
                    'needs_to_manifest': needs, 'confirmed': ran,
                    'confirmed_at': time.strftime('%Y-%m-%dT%H:%M:%SZ', time.gmtime())},
